@@ -226,7 +226,7 @@ func (g *projGen) perturb(m *pMethod, structNames []string) string {
 	if len(bindIdx) > 1 {
 		kinds = append(kinds, "retarget")
 	}
-	kinds = append(kinds, "second-body", "body-and-form", "drop-url-param")
+	kinds = append(kinds, "second-body", "body-and-form", "drop-url-param", "null-prop")
 	k := rng.Pick(r, kinds)
 	switch k {
 	case "drop-annot":
@@ -306,6 +306,28 @@ func (g *projGen) perturb(m *pMethod, structNames []string) string {
 		m.Annots = append(m.Annots, pAnnot{Name: "Foo", Value: "bar"})
 	case "bad-status":
 		m.Annots = append(m.Annots, pAnnot{Name: "ErrorResponse", Value: rng.Pick(r, []string{"abc", "999"}), Desc: "x"})
+	case "null-prop":
+		// a property whose JSON5 value is null / of the wrong kind (must be reported, never crash)
+		cands := []int{}
+		for i, a := range m.Annots {
+			if a.Name == "Security" || a.Name == "Query" || a.Name == "Header" || a.Name == "Path" {
+				cands = append(cands, i)
+			}
+		}
+		if len(cands) == 0 {
+			return "none"
+		}
+		i := rng.Pick(r, cands)
+		props := map[string]any{}
+		for k, v := range m.Annots[i].Props {
+			props[k] = v
+		}
+		if m.Annots[i].Name == "Security" {
+			props["scopes"] = rng.Pick(r, []any{nil, []any{nil}, []any{"a", nil}, "x", 5})
+		} else {
+			props[rng.Pick(r, []string{"name", "validate"})] = rng.Pick(r, []any{nil, 5, []any{}, true})
+		}
+		m.Annots[i].Props = props
 	case "second-body":
 		if len(structNames) == 0 {
 			return "none"
